@@ -775,7 +775,7 @@ func isRefLike(t types.Type) bool {
 
 // monotoneCounters: ghost counters that the program only ever increments (every send, every message handed to a
 // session): whatever unknown code ran, their value did not decrease.
-var monotoneCounters = map[string]bool{"ghost:sentTotal": true, "ghost:outTotal": true, "ghost:idLookups": true}
+var monotoneCounters = map[string]bool{"ghost:sentTotal": true, "ghost:outTotal": true, "ghost:idLookups": true, "ghost:doneCalls": true}
 
 func (st *State) monotone(name string, before *Term) {
 	if monotoneCounters[name] && before != nil && before.Sort.Kind == SInt {
